@@ -4,7 +4,7 @@
     compute_contact_force; order_points' permutation and the barycentric transforms X are inputs). *)
 From Coq Require Import ZArith QArith Reals Lra List Bool PrimFloat.
 From D3 Require Import Base.Ops Base.Vec Base.RVec Spec.Convex Checker.Poly Model.AabbTree Model.Hydro
-     Proofs.HydroPlane Proofs.HydroHalfplanes Proofs.HydroPair Proofs.HydroForce Proofs.HydroParallel Proofs.HydroOrder Proofs.HydroInside Proofs.HydroBary.
+     Proofs.HydroPlane Proofs.HydroHalfplanes Proofs.HydroPair Proofs.HydroForce Proofs.HydroParallel Proofs.HydroOrder Proofs.HydroInside Proofs.HydroBary Proofs.HydroSame.
 Import ListNotations.
 Local Close Scope Q_scope.
 
@@ -239,6 +239,15 @@ Theorem C15_reported_polygon_inside_partial :
       (dot (xyz Xi) x = 0%R -> dot (xyz Xi) y = 0%R -> (0 < bary_row Xi v)%R).
 Proof. exact reported_polygon_inside_partial. Qed.
 
+(** the same-tetrahedron branch: three copies of the potential-weighted centre of tetrahedron 2, a convex
+    combination of its vertices, exactly on the returned plane (unit normal unless the centre is the origin) *)
+Theorem C15_same_tetrahedron_point : forall (e : V4 R) (t : @tetra R),
+  nonneg4 e -> (0 < c0 e + c1 e + c2 e + c3 e)%R ->
+  let '(pl, poly) := handle_same_tetrahedron e t in
+  exists p, poly = [p; p; p] /\ conv_hull (tverts t) p /\ dot (xyz pl) p = c3 pl /\
+            (p <> vzero -> dot (xyz pl) (xyz pl) = 1%R).
+Proof. exact same_tetrahedron_point. Qed.
+
 (** ** order independence (exact model).  The 3-D vertices of the arrangement are characterised
     without the 2-D basis: v is one iff it lies on the plane, on two valid faces whose lines are not
     nearly parallel, and violates no valid face by more than EPSILON ... *)
@@ -328,6 +337,7 @@ Print Assumptions C15_intersection_true_vertices.
 Print Assumptions C15_one_sided_rejects.
 Print Assumptions C15_non_overlapping_false_partial.
 Print Assumptions C15_reported_polygon_inside_partial.
+Print Assumptions C15_same_tetrahedron_point.
 Print Assumptions C15_arrangement_vertex_iff.
 Print Assumptions C15_arrangement_vertices_order_independent.
 Print Assumptions C15_contact_plane_swap.
